@@ -220,8 +220,21 @@ def o145(ctx):
                     assume=assume_map({"enforce_shape is not False": enforce, "output_file is not None": False}))
         vol = Unk(sym("volume"))
         vol.rank = 3
-        it.run(q2, [vol, coord, S], {"enforce_shape": K(enforce)})
+        r2 = it.run(q2, [vol, coord, S], {"enforce_shape": K(enforce)})
         fulls = [e for e in it.events if e.kind == "call" and e.name == "numpy.full"]
+        # the other way of producing the out-of-volume voxels: padding the in-volume part.  Only a constant pad with the volume mean does it
+        for e in [e for e in it.events if e.kind == "call" and e.name == "numpy.pad"]:
+            mode = e.kwargs.get("mode", e.arg(2))
+            cv = e.kwargs.get("constant_values")
+            ctx.count(1)
+            if not (mode is not None and is_pyconst(mode) and pyval(mode) == "constant" and cv is not None
+                    and to_term(cv) == call("reduce:mean", sym("volume"), const(None))):
+                ctx.finding(q2, e.node, "voxels outside the volume must be set to the mean of the whole volume; np.pad with "
+                            f"mode={tm.show(to_term(mode)) if mode is not None else 'constant'} fills them with something else (per-line means of the "
+                            "cut-out part, edge values, zeros, ...)", e.node, m2)
+        ret_t = to_term(r2.ret) if r2.ret is not None else None
+        if ret_t is not None and not fulls and not tm.has_call(ret_t, "numpy.pad"):
+            raise Unsupported("extract_subvolume: construction of the returned window not recognised", fn2)
         ctx.count(1, {"enforce_shape": enforce, "np.full": [tm.show(to_term(e.arg(1)))[:60] for e in fulls]})
         filled = to_term(fulls[0].extra["ret"]) if len(fulls) == 1 and fulls[0].extra.get("ret") is not None else None  # value every voxel starts with
         if len(fulls) != 1 or to_term(fulls[0].arg(1)) != call("reduce:mean", sym("volume"), const(None)) \
